@@ -22,6 +22,9 @@ func init() {
 			"Not decided: deadlock freedom beyond R5 (a caller blocked in a receive is released by the close), goroutines left parked after a close, double close.",
 		Trusted: commonTrusted,
 		Run:     runC15,
+		Relies: []Dep{
+			{Prop: "C09", Rule: "R1", Keys: []string{"worker-body/panic-isolation"}, Floor: 1, Why: "closing the pool closes the job channel under the parked workers: what they receive then is a nil job, which must not be called (the panic handler would be invoked for a panic no job raised)"},
+		},
 	})
 }
 
